@@ -831,6 +831,7 @@ func main() {
 	defer os.RemoveAll(thePKI.dir)
 	defaults = gocql.VerifDefaultApprovedAuthenticators()
 	var cases []*pending
+	var slowCase *pending
 	// answers: ops that reach driver goroutines are run afterwards, in child processes
 	resolve := func() {
 		var idx []int
@@ -841,7 +842,22 @@ func main() {
 				ops = append(ops, c.op)
 			}
 		}
-		for k, rw := range runScenarios(ops) {
+		res, answered := runScenarios(ops)
+		for k, rw := range res {
+			if !answered[k] {
+				// say so in the stream: the model's answer to `slowrun` is that no scenario waits
+				for j := 0; j < k; j++ {
+					if res[j].slow || strings.HasPrefix(res[j].fatal, "hang:") {
+						slowCase = &pending{op: "slowrun " + ops[j], ans: "scenario-exceeded-15s:" + res[j].outcome + res[j].fatal,
+							class: func(string) string { return "slowrun" }}
+						break
+					}
+				}
+				// the campaign was cut short (scenarios sat out the driver's own time-outs): keep the answered prefix
+				fmt.Fprintf(os.Stderr, "c20: %d slow scenarios, case stream cut at case %d of %d\n", maxSlow, idx[k], len(cases))
+				cases = cases[:idx[k]]
+				break
+			}
 			cases[idx[k]].ans = format(ops[k], rw)
 		}
 		if scratch != "" {
@@ -859,6 +875,9 @@ func main() {
 		resolve()
 		for _, c := range cases {
 			fmt.Println(c.ans)
+		}
+		if slowCase != nil {
+			fmt.Println(slowCase.ans)
 		}
 		return
 	}
@@ -1164,6 +1183,9 @@ func main() {
 		add(strings.TrimSpace("newsession "+genConn(r, cls)+" "+strings.Join(genScript(r, cls), " ")), outcomeClass("newsession/"))
 	}
 	resolve()
+	if slowCase != nil {
+		cases = append(cases, slowCase)
+	}
 	for _, c := range cases {
 		out.Case(c.op, c.ans, c.class(c.ans), true)
 	}
